@@ -62,6 +62,22 @@ def read(md, name):
 
 
 def observe(L, p, lazy):
+    """a `Hang` is only reported when a second attempt (collector off, 30 s of CPU time) does not return either"""
+    o = _observe(L, p, lazy, 2.0)
+    if o.get('exc') == 'Hang':
+        import gc
+        gc.collect()
+        was = gc.isenabled()
+        gc.disable()
+        try:
+            o = _observe(L, p, lazy, 30.0)
+        finally:
+            if was:
+                gc.enable()
+    return o
+
+
+def _observe(L, p, lazy, limit):
     attrs = ' '.join('%s=%d' % (k, p[k]) for k in ('start', 'end', 'size', 'orphan', 'overlap') if p[k] is not None)
     rows = []
 
@@ -77,7 +93,7 @@ def observe(L, p, lazy):
     src = '<dtml-in seq %s><dtml-call "rec(_)"><dtml-else>EMPTY</dtml-in>' % attrs
     seq = Lazy(L) if lazy else list(range(L))
     old = signal.signal(signal.SIGVTALRM, _alarm)
-    signal.setitimer(signal.ITIMER_VIRTUAL, 2.0)
+    signal.setitimer(signal.ITIMER_VIRTUAL, limit)
     try:
         out = template(src)(seq=seq, rec=rec)
     except Hang:
